@@ -94,6 +94,13 @@ def run_c12(run_, rng, tier, exe):
         for k in present:
             scen.add_parents(tree, names[k]); tree[names[k]] = ("R", 0o644, emit.file_bytes(sec["a"]))
         tree["p.diff"] = ("R", 0o644, text)
+        # a candidate that cannot exist because a leading component of its name is a regular file (stat fails, but not with ENOENT)
+        if rng.random() < 0.25 and strip == 1:
+            k = rng.choice(["old", "new"])
+            if k not in present:
+                top = names[k].split("/")[0]
+                if not any(q == top or q.startswith(top + "/") for q in tree):
+                    tree[top] = ("R", 0o644, b"a file where the name wants a directory\n")
         s = dict(tree=tree, opts={"p": strip, "i": "p.diff", "f": 1}, umask=0o022, secs=[sec], names=names, present=present, strip=strip)
         scns.append(s)
 
@@ -110,6 +117,42 @@ def run_c12(run_, rng, tier, exe):
             return "/dev/null was opened"
         return None
     _, b2, m2 = l2_family(run_, exe, scns, judge, cls=lambda s, r: "candidates " + "+".join(s["present"]) + " p%d" % s["strip"])
+    # a file that comes into being takes the name of the side that exists afterwards: the new name for a creating patch, the old
+    # name for a deleting patch applied with -R (old and new names differ, as between two trees)
+    cr = []
+    for _ in range(120 if q else 2000):
+        lines = [(gen.rand_text(rng, True), "L") for _ in range(rng.randint(1, 4))]
+        hs_add = [dict(os=0, oc=0, ns=1, nc=len(lines), body=[("+", t, nl) for t, nl in lines])]
+        hs_del = [dict(os=1, oc=len(lines), ns=0, nc=0, body=[("-", t, nl) for t, nl in lines])]
+        oldn, newn = rng.choice([("old/gone.txt", "new/gone.txt"), ("t.orig", "t"), ("a/x/f", "b/y/f")])
+        rev = rng.random() < 0.5
+        style = rng.choice(["epoch", "devnull"])
+        epoch = "1970-01-01 00:00:00.000000000 +0000"; now = "2024-01-01 00:00:00.000000000 +0000"
+        fmt = rng.choice(["unified", "unified", "context"])
+        em = emit.emit_unified if fmt == "unified" else emit.emit_context
+        if rev:
+            text = em(oldn, newn if style == "epoch" else "/dev/null", hs_del, now, epoch)
+            want = oldn
+        else:
+            text = em(oldn if style == "epoch" else "/dev/null", newn, hs_add, epoch, now)
+            want = newn
+        o = {"p": 0, "i": "p.diff"}
+        if rev:
+            o["R"] = 1
+        cr.append(dict(tree={"p.diff": ("R", 0o644, text)}, opts=o, umask=0o022, secs=[], want=want, other=(newn if rev else oldn), content=emit.file_bytes(lines),
+                       style=style, rev=rev, fmt=fmt))
+
+    def judge_cr(s, r):
+        after = tree_no_meta(r["tree"])
+        if s["rev"] and s["fmt"] == "context" and s["style"] == "epoch":
+            return None      # (known finding of C05: not recognised as a deletion before the body is read)
+        if s["other"] in after:
+            return "the file came into being under the %s name %s instead of %s" % ("new" if s["rev"] else "old", s["other"], s["want"])
+        if r["exit"] != 0 or after.get(s["want"], (0, 0, None))[2] != s["content"]:
+            return "a patch that brings %s into being (%s, %s) did not create it (exit %d)" % (s["want"], "-R of a deletion" if s["rev"] else "creation", s["style"], r["exit"])
+        return None
+    _, b2c, m2c = l2_family(run_, exe, cr, judge_cr, cls=lambda s, r: "file comes into being %s %s exit %d" % ("-R" if s["rev"] else "fwd", s["style"], r["exit"]))
+    b2 += b2c; m2 += m2c
     # hunk lines that read like file headers: the first line of the file is a comment naming another file that exists
     # ("-- d.txt helpers" removed gives "--- d.txt helpers"; "++ d.txt" added gives "+++ d.txt"); the file the headers
     # name is the one that is patched, the other one is left alone
@@ -305,20 +348,40 @@ def run_c13(run_, rng, tier, exe):
         s0 = scen.base_scenario(rng, [sec], opts=dict(rng.choice([{"N": 1}, {"N": 1, "rf": "context"}, {"N": 1, "rf": "unified"}])))
         s0["tree"]["f"] = ("R", 0o644, emit.file_bytes(part))
         scns.append(s0)
+    # several files of one run with rejects of their own
+    for _ in range(60 if q else 1000):
+        o = dict(rng.choice([{"f": 1}, {"f": 1, "rf": "context"}, {"f": 1, "rf": "unified"}]))
+        scns.append(scen.gen_scenario(rng, nsec=rng.choice([2, 3]), kinds=["change"], fmts=["unified", "context"], drift=0.95, opts=o))
+    # an already applied patch turned round at run time (-t): the tree holds the new version, drifted further down
+    for _ in range(80 if q else 1200):
+        while True:
+            sec = scen.section(rng, "t", kind="change", fmt=rng.choice(["unified", "context"]), width=rng.choice([1, 2, 3]), nonl=False)
+            if len(sec["hs"]) >= 2 and sec["hs"][0]["nc"] != sec["hs"][0]["oc"]:
+                break
+        s0 = scen.base_scenario(rng, [sec], opts=dict(rng.choice([{"t": 1}, {"t": 1, "rf": "context"}, {"t": 1, "rf": "unified"}])))
+        b_ = list(sec["b"])
+        h1 = sec["hs"][0]
+        keep = (h1["ns"] - 1 if h1["nc"] else h1["ns"]) + h1["nc"]
+        s0["tree"]["t"] = ("R", 0o644, emit.file_bytes(b_[:keep] + gen.drift(rng, b_[keep:], strength=0.9)))
+        scns.append(s0)
     res, b2, m2 = l2_family(run_, exe, scns, lambda s, r: None, cls=lambda s, r: "rejects exit %d" % r["exit"])
     parse_cases, who = [], []
     for i, (s, r) in enumerate(zip(scns, res)):
-        p = s["secs"][0]["path"]
-        rej = r["tree"].get(p + ".rej")
-        if rej is None:
-            continue
-        parse_cases.append("PARSE1 unknown 0 " + hx(rej[2])); who.append(i)
+        for k_, x_ in enumerate(s["secs"]):
+            rej = r["tree"].get(x_["path"] + ".rej")
+            if rej is None:
+                continue
+            parse_cases.append("PARSE1 unknown 0 " + hx(rej[2])); who.append((i, k_))
     pi, pm = run_both(parse_cases) if parse_cases else ([], [])
-    for j, i in enumerate(who):
+    for j, (i, k_) in enumerate(who):
         s, r = scns[i], res[i]
-        sec = s["secs"][0]
-        out = r["stdout"].decode("latin-1")
-        hs0 = sec["hs"] if not s["opts"].get("R") else applyc.reverse_hunks(sec["hs"])
+        sec = s["secs"][k_]
+        blocks_ = re.split(r"^(?:patching|checking) file ", r["stdout"].decode("latin-1"), flags=re.M)[1:]
+        if len(blocks_) != len(s["secs"]):
+            continue
+        out = blocks_[k_]
+        turned = bool(s["opts"].get("R")) != ("Assuming -R" in out)
+        hs0 = sec["hs"] if not turned else applyc.reverse_hunks(sec["hs"])
         if sec["fmt"] in ("context", "normal"):
             hs0 = [dict(h, body=streams.normalise_groups(h["body"])) for h in hs0]
         verdicts = {int(m.group(1)): m for m in applyc.MSG_RE.finditer(out)}
@@ -462,6 +525,23 @@ def run_c14(run_, rng, tier, exe):
         if got is None or got[2] != s["want"]:
             return "%s diff under --newline-output=%s: bytes written are not what the mode promises" % (s["fmt"], s["mode"])
         return None
+    # a series of git patches for one file in one stream: every later patch starts from the not yet written result of the
+    # one before; terminators (CRLF lines, a last line without newline that no later patch touches) stay what they are
+    for _ in range(80 if q else 1200):
+        mode = rng.choice(["keep", "keep", "lf", "crlf", "native"])
+        # (under a converting mode each patch of the series is written against what the one before it leaves: LF / CRLF only)
+        cls_ = "LLLC" if mode == "keep" else ("C" if mode == "crlf" else "L")
+        cur = [(gen.rand_text(rng, True) + str(i_), rng.choice(cls_)) for i_ in range(rng.randint(4, 8))]
+        if rng.random() < 0.6:
+            cur[-1] = (cur[-1][0], "N")
+        a0 = list(cur); text = b""
+        for j in range(rng.choice([2, 2, 3])):
+            i_ = rng.randrange(len(cur) - 2)           # never the last lines
+            ops = [(" ", l) for l in cur]; ops[i_] = ("-", cur[i_]); ops.insert(i_ + 1, ("+", (cur[i_][0] + "x", cur[i_][1])))
+            text += emit.emit_git("f", "f", gen.hunks_from_ops(ops, 1), kind="change")
+            cur = [l for o_, l in ops if o_ != "-"]
+        scns.append(dict(tree={"f": ("R", 0o644, emit.file_bytes(a0)), "p.diff": ("R", 0o644, text)}, opts={"p": 1, "i": "p.diff", "nl": mode, "F": 0},
+                         umask=0o022, want=applyc.lines_bytes(mode, cur), fmt="git series", mode=mode))
     _, b3, m3 = l2_family(run_, exe, scns, judge, cls=lambda s, r: "L2 %s %s" % (s["fmt"], s["mode"]))
     for i, d, rep in b3:
         rep["expected"] = scns[i]["want"].decode("latin-1")
